@@ -6,6 +6,7 @@ import (
 	"os"
 	"sort"
 	"strings"
+	"syscall"
 	"testing"
 	"time"
 
@@ -24,6 +25,11 @@ type C15Proc struct {
 	KillAt   int  `json:"kill_at"` // index of the FS-operation park at which the process is killed (-1: runs to completion)
 	Lines    int  `json:"lines"`   // lines per data file for this process
 	StallMs  int  `json:"stall_ms"`
+	// DiskFullAt >= 0: the disk fills up during this process: its k-th write to the
+	// outfile, its tmp or query file fails with ENOSPC (nothing written), and so
+	// does every later one (-1: never; omitted in old files = 0,
+	// so the generator stores k+1 and 0 means never)
+	DiskFullAt int `json:"disk_full_at,omitempty"`
 }
 
 type C15Scenario struct {
@@ -46,6 +52,9 @@ func c15Gen(r *Rand, tier string, i int) Scenario {
 		p := C15Proc{Append: allAppend || r.Bool(0.15), NonCumul: r.Bool(0.15), KillAt: -1, Lines: PickOf(r, 3, 20, 60, 150), StallMs: PickOf(r, 0, 0, 10, 30)}
 		if r.Bool(0.6) && k < n-1 || r.Bool(0.2) {
 			p.KillAt = PickOf(r, r.Intn(6), r.Intn(30), r.Intn(120))
+		}
+		if r.Bool(0.15) {
+			p.DiskFullAt = 1 + PickOf(r, 0, 1, 2, r.Intn(8), r.Intn(40))
 		}
 		sc.Procs = append(sc.Procs, p)
 	}
@@ -169,7 +178,25 @@ func c15Run(t *testing.T, s Scenario, src verifsim.DecisionSource, keep bool) *R
 		}
 	}
 
+	diskWrites, diskFull := 0, false
 	opts := RunOpts{Src: src, KeepLabels: keep, MaxFake: 20 * time.Minute,
+		OnSutPanic: func(w *World, g *verifsim.G, msg string) bool {
+			// dmap ends with a fatal error when it cannot write its result: with
+			// the disk full that is the expected end of the process
+			return diskFull && g.Node() == procNode && strings.Contains(msg, "no space left on device")
+		},
+		FSWriteFault: func(w *World, g *verifsim.G, path string, n int) (int, error) {
+			if cur < 0 || g.Node() != procNode || sc.Procs[cur].DiskFullAt <= 0 || !strings.HasPrefix(path, outPath) {
+				return 0, nil
+			}
+			diskWrites++
+			if diskFull || diskWrites == sc.Procs[cur].DiskFullAt {
+				diskFull = true
+				// the whole write fails (no torn writes, as for kills: DESIGN §2.5)
+				return 0, syscall.ENOSPC
+			}
+			return 0, nil
+		},
 		OnPark: func(w *World, g *verifsim.G) {
 			site := g.Site()
 			if cur < 0 || g.Node() != procNode || !strings.HasSuffix(site, "/fs") || !strings.Contains(site, "mapr/groupsetresult.go") {
@@ -221,6 +248,7 @@ func c15Run(t *testing.T, s Scenario, src verifsim.DecisionSource, keep bool) *R
 			_, err := os.Stat(outPath)
 			baseExists = err == nil
 			fsParks = 0
+			diskWrites, diskFull = 0, false
 			procNode = w.Sim.NewNode(fmt.Sprintf("proc%d", pi), "client", "clienthost")
 			cur = pi
 			w.Sim.Stalls = nil
@@ -246,7 +274,7 @@ func c15Run(t *testing.T, s Scenario, src verifsim.DecisionSource, keep bool) *R
 			// state after the process ended (normally or killed)
 			w.Sleep(100 * time.Millisecond)
 			inspect("process-end")
-			if proc.Exited && !node.Dead() && !p.Append && !p.NonCumul {
+			if proc.Exited && !node.Dead() && !p.Append && !p.NonCumul && !diskFull {
 				content, err := os.ReadFile(outPath)
 				if err != nil || !completeResult(content, sc.rows(p.Lines)) {
 					fail("final-result-missing", fmt.Sprintf("process %d finished normally but the outfile does not hold its complete result: %q", pi, trunc(string(content), 120)))
@@ -255,7 +283,7 @@ func c15Run(t *testing.T, s Scenario, src verifsim.DecisionSource, keep bool) *R
 			if p.Append {
 				// after a run that was not killed the file must start with exactly one complete header
 				content, err := os.ReadFile(outPath)
-				if err == nil && len(content) > 0 && proc.Exited && !node.Dead() {
+				if err == nil && len(content) > 0 && proc.Exited && !node.Dead() && !diskFull {
 					first := strings.SplitN(string(content), "\n", 2)[0]
 					if first != c15Header {
 						fail("append-header-torn", fmt.Sprintf("process %d (append) finished normally; the first line of the outfile is %q, not the header", pi, trunc(first, 60)))
@@ -291,7 +319,7 @@ func c15Shape(s Scenario) string {
 	sc := s.(*C15Scenario)
 	var ps []string
 	for _, p := range sc.Procs {
-		ps = append(ps, fmt.Sprintf("a%v/n%v/k%d/l%d/s%d", p.Append, p.NonCumul, p.KillAt, p.Lines, p.StallMs))
+		ps = append(ps, fmt.Sprintf("a%v/n%v/k%d/l%d/s%d/d%d", p.Append, p.NonCumul, p.KillAt, p.Lines, p.StallMs, p.DiskFullAt))
 	}
 	sort.Strings(nil)
 	return fmt.Sprintf("pre%v/g%d/%s", sc.PreExisting, sc.Groups, strings.Join(ps, ";"))
@@ -325,6 +353,16 @@ func c15Shrink(s Scenario) []Scenario {
 			n := cl()
 			n.Procs[i].StallMs = 0
 			out = append(out, n)
+		}
+		if sc.Procs[i].DiskFullAt > 0 {
+			n := cl()
+			n.Procs[i].DiskFullAt = 0
+			out = append(out, n)
+			if sc.Procs[i].DiskFullAt > 1 {
+				n2 := cl()
+				n2.Procs[i].DiskFullAt = sc.Procs[i].DiskFullAt - 1
+				out = append(out, n2)
+			}
 		}
 		if sc.Procs[i].KillAt > 0 {
 			n := cl()
